@@ -46,9 +46,10 @@ class BoxCommand(Command):
     args = 'self'
     mathMode = False
     def parse(self, tex):
-        MathShift.inEnv.append(None)
+        inEnv = MathShift.environments(self.ownerDocument)
+        inEnv.append(None)
         Command.parse(self, tex)
-        MathShift.inEnv.pop()
+        inEnv.pop()
         return self.attributes
 
 class hbox(BoxCommand): pass
@@ -64,7 +65,11 @@ class MathShift(Command):
 
     """
     macroName = 'active::$'
-    inEnv = []
+
+    @staticmethod
+    def environments(document):
+        """ Stack of the math environments currently open in `document` """
+        return document.userdata.setdefault('MathShift.inEnv', [])
 
     def invoke(self, tex):
         r"""
@@ -73,7 +78,7 @@ class MathShift(Command):
         account \mbox{}es.
 
         """
-        inEnv = type(self).inEnv
+        inEnv = MathShift.environments(self.ownerDocument)
 
         current = self.ownerDocument.createElement('math')
         for t in tex.itertokens():
